@@ -18,7 +18,7 @@ ASSUMPTIONS = ["adbd verifies with RSA_verify(NID_sha1, token, 20, sig, ...), i.
                "the cryptography package is trusted for loading the PEM private key and as a second verifier"]
 SHARDS = {"quick": 4, "thorough": 16}
 TIME_BUDGET = {"quick": 60, "thorough": 600}
-FLOORS = {"quick": {"signatures_verified": 60, "blobs_checked": 3, "distinct": 3}, "thorough": {"signatures_verified": 2000, "blobs_checked": 40}}
+FLOORS = {"quick": {"signatures_verified": 60, "blobs_checked": 3, "distinct": 3, "crafted_keys": 1, "crafted_tokens": 2}, "thorough": {"signatures_verified": 2000, "blobs_checked": 40}}
 
 SHA1_PREFIX = bytes.fromhex("3021300906052b0e03021a05000414")
 
@@ -27,6 +27,12 @@ def gen_cases(tier, seed):
     n = 4 if tier == "quick" else 192
     for i in range(n):
         yield {"seed": "%d:%d" % (seed, i), "tokens": 8 if tier == "quick" else 20}
+    # crafted corner cases that random keys/tokens hit only once in 256: a key whose rr (or n0inv) has a zero top byte,
+    # tokens whose signature has a zero top byte
+    for i in range(2 if tier == "quick" else 12):
+        yield {"seed": "%d:ck%d" % (seed, i), "tokens": 4, "craft": "key"}
+    for i in range(2 if tier == "quick" else 12):
+        yield {"seed": "%d:ct%d" % (seed, i), "tokens": 2, "craft": "token", "crafted_tokens": 2 if tier == "quick" else 4}
 
 
 def emsa(token, k):
@@ -48,7 +54,49 @@ def run_case(case):
     stats = {"signatures_verified": 0, "blobs_checked": 0, "signer_agreements": 0, "tokens": 0}
     try:
         path = os.path.join(tmp, "adbkey")
-        kg.keygen(path)
+        crafted_note = None
+        if case.get("craft") == "key":
+            # recombine the primes of freshly generated keys into a 2048-bit key whose rr = 2^4096 mod n (or n0inv) starts with a zero byte,
+            # and let the repository's keygen() produce its files from it (only the third-party generator is substituted)
+            from cryptography.hazmat.primitives.asymmetric import rsa as crsa
+            primes = []
+            for _ in range(40):
+                pn = crsa.generate_private_key(public_exponent=65537, key_size=2048).private_numbers()
+                primes += [pn.p, pn.q]
+            want = "rr" if case["seed"][-1] in "02468" else "n0inv"
+            found = None
+            for i in range(len(primes)):
+                for j in range(i + 1, len(primes)):
+                    nn = primes[i] * primes[j]
+                    if nn.bit_length() != 2048:
+                        continue
+                    if want == "rr":
+                        r_ = (1 << 2048) % nn
+                        ok_ = (r_ * r_ % nn) < (1 << 2040)
+                    else:
+                        ok_ = ((-pow(nn, -1, 1 << 32)) % (1 << 32)) < (1 << 24)
+                    if ok_:
+                        found = (primes[i], primes[j])
+                        break
+                if found:
+                    break
+            if found:
+                p_, q_ = found
+                e_ = 65537
+                d_ = pow(e_, -1, (p_ - 1) * (q_ - 1))
+                key_obj = crsa.RSAPrivateNumbers(p_, q_, d_, d_ % (p_ - 1), d_ % (q_ - 1), pow(q_, -1, p_), crsa.RSAPublicNumbers(e_, p_ * q_)).private_key()
+                orig_gen = kg.rsa.generate_private_key
+                kg.rsa.generate_private_key = lambda *a, **k: key_obj
+                try:
+                    kg.keygen(path)
+                finally:
+                    kg.rsa.generate_private_key = orig_gen
+                crafted_note = "key with zero top byte in %s" % want
+                stats["crafted_keys"] = 1
+            else:
+                kg.keygen(path)
+        else:
+            kg.keygen(path)
         with open(path, "rb") as f:
             priv = serialization.load_pem_private_key(f.read(), password=None)
         nums = priv.private_numbers()
@@ -94,6 +142,19 @@ def run_case(case):
             if gb != pub:
                 viol.append({"mechanism": "getpublickey", "detail": "%s.GetPublicKey() differs from the .pub file content" % name})
         tokens = [b"\x00" * 20, b"\xff" * 20] + [bytes(rng.getrandbits(8) for _ in range(20)) for _ in range(case["tokens"])]
+        if case.get("craft") == "token":
+            # tokens whose correct signature starts with a zero byte (found with the private key by CRT exponentiation)
+            tries = 0
+            while len(tokens) < 2 + case["tokens"] + case["crafted_tokens"] and tries < 6000:
+                tries += 1
+                tok = bytes(rng.getrandbits(8) for _ in range(20))
+                m_ = int.from_bytes(emsa(tok, k), "big")
+                s1 = pow(m_, nums.dmp1, nums.p)
+                s2 = pow(m_, nums.dmq1, nums.q)
+                sig_ = s2 + ((nums.iqmp * (s1 - s2)) % nums.p) * nums.q
+                if sig_ < (1 << (8 * (k - 1))):
+                    tokens.append(tok)
+                    stats["crafted_tokens"] = stats.get("crafted_tokens", 0) + 1
         pubkey = priv.public_key()
         for tok in tokens:
             stats["tokens"] += 1
